@@ -5,7 +5,7 @@ from .. import refcal as R, spec as SP
 from ..batch import run_lines, run_args, BatchError
 from ..core import Sub, excluded_classes
 from ..hijri import Hijri
-from .common import SRC, Viol, days_for, boundary, slice_range
+from .common import SRC, Viol, days_for, boundary, slice_range, tail
 
 FLAVOURS = ("san",)
 RULE = ("(a) round trips S->T->S through the CLI for all ordered pairs of {ymd,ymcw,ywd,yd,ldn,mdn,"
@@ -60,7 +60,7 @@ def roundtrip(ctx, shard, nshards):
             for n, a, m, b in zip(days, lines, mid, back):
                 ok = (b == a) if s != "jdn" else (b and float(b) == float(a))
                 if not ok:
-                    V.add(tag, {"s": s, "t": t, "n": n}, expected=a, actual=[m, b])
+                    V.add(tail(tag, n), {"s": s, "t": t, "n": n}, expected=a, actual=[m, b])
             sub.evaluations += len(days)
             sub.nontrivial_count += nB
     # consecutive days map to consecutive values: successor in T's own terms
@@ -169,7 +169,7 @@ def order(ctx, shard, nshards):
                             break
                         pos += len(t)
                     spb = bad[0] if bad else "?"
-                    V.add("order:%s:%s" % (s, spb),
+                    V.add(tail("order:%s:%s" % (s, spb), n),
                           {"s": s, "n": n, "fmt": fmt, "spec": spb, "kind": "order"},
                           expected=exp, actual=line)
             sub.evaluations += len(days) * len(p)
